@@ -32,6 +32,7 @@ func c25(r *core.Report, p *core.Prog, thorough bool) {
 	r.Rule("C25.location", "pack: saveItemLoc for every item of the sealed tail with the tail's Loc; removeItem: saveItemLoc(moved.ID, index) after the move; Remove/RemoveX: removeItemLoc(id) after removeItem; loadLastFromPrev: removeItemLoc for every item of the new tail")
 	r.Rule("C25.lookup-order", "getItemPartIndex is called only where the tail's find missed (or, in Add/AddX, before the tail is searched by add); Last.add only after the tail's find missed")
 	r.Rule("C25.tail", "pack is called exactly under Last.length() == PartitionSize and Last.add is not reached from the full edge without it; removeFromLast/removeItem exit successfully only with a non-empty tail or after loadLastFromPrev")
+	r.Rule("C25.locations-cache", "the in-memory locations map gets an entry only together with the stored location (saveItemLoc, same key) or for the items of a partition taken from p.Partitions (never the tail: tail items have no location and removeFromLast clears none)")
 	r.Rule("C25.size", "Size returns Last.Loc*PartitionSize + Last.length() (0 for an empty tail)")
 
 	itemsF := p.Field(pkgPart, "partition", "Items")
@@ -185,6 +186,9 @@ func c25(r *core.Report, p *core.Prog, thorough bool) {
 
 	// ---- C25.lookup-order
 	c25Lookup(r, p, need, lastF)
+
+	// ---- C25.locations-cache
+	c25LocationsCache(r, p, itemsF, lastF, partsF)
 
 	// ---- C25.tail
 	c25Tail(r, p, need, lastF, sizeF)
@@ -806,4 +810,122 @@ func c25AlwaysMarks(fn *ssa.Function, changedF *types.Var) bool {
 	_, _, found := core.PathQuery{Fn: fn, Barrier: mark, EdgeOK: core.FeasibleEdge,
 		Target: func(x ssa.Instruction) bool { _, isRet := x.(*ssa.Return); return isRet }}.Find()
 	return !found
+}
+
+// c25LocationsCache: who may put entries into Partitions.locations.
+func c25LocationsCache(r *core.Report, p *core.Prog, itemsF, lastF, partsF *types.Var) {
+	locsF := p.Field(pkgPart, "Partitions", "locations")
+	if locsF == nil {
+		r.Unresolved("C25.locations-cache", "Partitions.locations")
+		return
+	}
+	mayReturnTail := func(fn *ssa.Function) bool {
+		for _, ret := range core.Returns(fn) {
+			for i := range ret.Results {
+				v := core.ResultValue(ret, i)
+				vals := []ssa.Value{v}
+				if ph, ok := v.(*ssa.Phi); ok {
+					vals = ph.Edges
+				}
+				for _, x := range vals {
+					if f, _ := loadOfAnyField(x); f == lastF {
+						return true
+					}
+				}
+			}
+		}
+		return false
+	}
+	sameKey := func(a, b ssa.Value) bool {
+		if a == b {
+			return true
+		}
+		ca, ok1 := a.(*ssa.Call)
+		cb, ok2 := b.(*ssa.Call)
+		if !ok1 || !ok2 || ca.Common().StaticCallee() == nil || ca.Common().StaticCallee() != cb.Common().StaticCallee() || len(ca.Call.Args) != len(cb.Call.Args) {
+			return false
+		}
+		for i := range ca.Call.Args {
+			if ca.Call.Args[i] != cb.Call.Args[i] {
+				return false
+			}
+		}
+		return true
+	}
+	n := 0
+	for _, fn := range p.FuncsIn(pkgPart) {
+		if fn.Blocks == nil || strings.Contains(p.Pos(fn.Pos()), "_gen.go") {
+			continue
+		}
+		loops := RangeLoops(fn)
+		for _, b := range fn.Blocks {
+			for _, in := range b.Instrs {
+				mu, ok := in.(*ssa.MapUpdate)
+				if !ok {
+					continue
+				}
+				if f, _ := loadOfAnyField(mu.Map); f != locsF {
+					continue
+				}
+				n++
+				key := fmt.Sprintf("%s:cache-entry#%d", fn.Name(), n)
+				// (a) paired with the stored location
+				paired := false
+				for _, b2 := range fn.Blocks {
+					for _, in2 := range b2.Instrs {
+						c, ok := in2.(*ssa.Call)
+						if !ok || core.MethodName(c.Common()) != "InsertTrieNode" {
+							continue
+						}
+						args := core.CallArgs(c.Common())
+						if len(args) >= 2 && sameKey(args[len(args)-2], mu.Key) && c.Block().Dominates(mu.Block()) && core.ErrLeadsToFailure(c) {
+							paired = true
+						}
+					}
+				}
+				if paired {
+					r.Pass("C25.locations-cache", key, p.Pos(mu.Pos()), "written together with the stored location under the same key")
+					continue
+				}
+				// (b) items of a stored partition
+				okSrc, why := false, "the entry is not written while ranging over a partition's items"
+				for _, rl := range loops {
+					if !rl.L.Body[mu.Block()] {
+						continue
+					}
+					f, part := loadOfAnyField(rl.Slice)
+					if f != itemsF {
+						continue
+					}
+					src := part
+					if ex, ok := src.(*ssa.Extract); ok {
+						src = ex.Tuple
+					}
+					switch x := src.(type) {
+					case *ssa.Lookup:
+						if fl, _ := loadOfAnyField(x.X); fl == partsF {
+							okSrc = true
+						} else {
+							why = "the partition is looked up somewhere else than p.Partitions"
+						}
+					case *ssa.Call:
+						cal := x.Common().StaticCallee()
+						if cal != nil && cal.Blocks != nil && !mayReturnTail(cal) {
+							okSrc = true
+						} else {
+							why = "the partition comes from " + core.CalleeName(x.Common()) + ", which can hand out the tail: its items would get cached locations that removeFromLast never clears"
+						}
+					default:
+						if fl, _ := loadOfAnyField(part); fl == lastF {
+							why = "the partition is the tail"
+						} else {
+							why = "where the partition comes from is not recognised"
+						}
+					}
+				}
+				r.Check(okSrc, "C25.locations-cache", key, p.Pos(mu.Pos()), "entries are cached only for items of a stored partition; "+why)
+			}
+		}
+	}
+	r.Floor("C25.locations-cache", "writes into the locations map", n, 2)
 }
